@@ -128,6 +128,30 @@ def evStr : Martian.LexerLR.Event → String
   | .pop s => "X" ++ toString s
   | .discard tok => "D" ++ toString tok
 
+/-! Bounded-exhaustive comparison of the goyacc model with x-c09's reader: every token sequence of
+length ≤ n over an alphabet with one token of every kind the value-expression grammar distinguishes. -/
+
+def exhAlphabet : List Martian.FormatExp.Tok :=
+  [.punct 0x5B, .punct 0x5D, .punct 0x7B, .punct 0x7D, .punct 0x2C, .punct 0x3A, .punct 0x2E, .punct 0x3D,
+   .int [0x31], .float [0x32, 0x2E, 0x35], .str [0x22, 0x61, 0x22], .kTrue, .kNull, .id [0x78], .id [0x73, 0x70, 0x6C, 0x69, 0x74],
+   .kSelf, .kDefault, .reserved [0x73, 0x74, 0x61, 0x67, 0x65]]
+
+/-- all sequences of length exactly `n` -/
+def seqsOfLen : Nat → List (List Martian.FormatExp.Tok)
+  | 0 => [[]]
+  | n + 1 => (seqsOfLen n).flatMap fun s => exhAlphabet.map fun t => t :: s
+
+/-- (number compared, number accepted, first disagreement) over all sequences of length `n` -/
+def exhCompare (n : Nat) : Nat × Nat × Option (List Martian.FormatExp.Tok) :=
+  (seqsOfLen n).foldl (fun (acc : Nat × Nat × Option (List Martian.FormatExp.Tok)) ts =>
+    let a := Martian.LexerLR.parseLR ts
+    let r := Martian.FormatExp.parseToks ts
+    let same := Martian.LexerLR.optExpEq a r
+    (acc.1 + 1, acc.2.1 + (if a.isSome then 1 else 0),
+      match acc.2.2 with
+      | some x => some x
+      | none => if same then none else some ts)) (0, 0, none)
+
 def handle (op : String) (args : List String) : Option String :=
   match op, args with
   -- scanner + parser driver: the event trace, the result and the error position
@@ -158,6 +182,25 @@ def handle (op : String) (args : List String) : Option String :=
       let sr := toString (repr r)
       if sa == sr then pure ("same " ++ (if a.isSome then "some" else "none") ++ " " ++ toString ts.length)
       else pure ("differ LR=" ++ (sa.replace "\n" " ") ++ " READER=" ++ (sr.replace "\n" " "))
+  -- the same for ONE call statement (`file: call_stm`) against x-c09's `pCall2`
+  | "lrcmpcall", [s] => do
+    let b ← bytesOfHex s
+    match Martian.FormatExp.lexAll b with
+    | none => pure "nolex"
+    | some ts =>
+      let a := Martian.LexerLR.parseLRCall ts
+      let r : Option Martian.FormatCall2.Call2 := match Martian.FormatCall2.pCall2 ts with
+        | some (c, []) => some c
+        | _ => none
+      let sa := toString (repr a)
+      let sr := toString (repr r)
+      if sa == sr then pure ("same " ++ (if a.isSome then "some" else "none") ++ " " ++ toString ts.length)
+      else pure ("differ LR=" ++ (sa.replace "\n" " ") ++ " READER=" ++ (sr.replace "\n" " "))
+  | "lrexh", [n] => do
+    let k ← n.toNat?
+    let r := exhCompare k
+    pure (toString r.1 ++ " " ++ toString r.2.1 ++ " " ++
+      (match r.2.2 with | none => "all-same" | some ts => "differ " ++ ((toString (repr ts)).replace "\n" " ")))
   | "failprods", [] => pure (" ".intercalate (Gen.mmFailProds.map toString))
   -- FormatExp.lexAll (C09's reduced tokenizer) vs the full tokenizer model
   | "fxcmp", [s] => do
